@@ -28,21 +28,25 @@ def gen_state(extra: dict | None = None) -> State:
 ORDER_PRESERVING_WRAPPERS = ("enumerate", "list", "tuple", "iter")
 
 
-def unwrap_iterable(v: AV) -> AV:
-    """The collection a loop walks: `enumerate(xs)`, `list(xs)`, ... iterate xs in its own order."""
-    while isinstance(v, App) and v.func in ORDER_PRESERVING_WRAPPERS and v.args:
+ELEMENT_PRESERVING_WRAPPERS = ORDER_PRESERVING_WRAPPERS + ("sorted", "reversed")
+
+
+def unwrap_iterable(v: AV, any_order: bool = False) -> AV:
+    """The collection a loop walks: `enumerate(xs)`, `list(xs)`, ... iterate xs in its own order; with ``any_order``
+    also `sorted(xs)` / `reversed(xs)`, which walk the same elements in another order."""
+    while isinstance(v, App) and v.func in (ELEMENT_PRESERVING_WRAPPERS if any_order else ORDER_PRESERVING_WRAPPERS) and v.args:
         v = v.args[0]
     return v
 
 
-def find_loops(it: Interp, fi: FuncInfo, pred) -> list[tuple[ast.For, AV, AV, State]]:
+def find_loops(it: Interp, fi: FuncInfo, pred, any_order: bool = False) -> list[tuple[ast.For, AV, AV, State]]:
     """Loops of ``fi`` (after a run of ``it``) whose iterable satisfies ``pred(iterable AV)`` - directly or inside an
     order-preserving wrapper such as enumerate()."""
     out = []
     for node in ast.walk(fi.node):
         if isinstance(node, ast.For) and id(node) in it.loops:
             for itv, elem, st in it.loops[id(node)]:
-                if pred(itv) or (unwrap_iterable(itv) is not itv and pred(unwrap_iterable(itv))):
+                if pred(itv) or (unwrap_iterable(itv, any_order) is not itv and pred(unwrap_iterable(itv, any_order))):
                     out.append((node, itv, elem, st))
                     break
     return out
